@@ -68,16 +68,16 @@ def replay(prop, path):
 
 RT = {
     # prop: (mode, quick cases, quick secs, thorough cases, thorough secs)
-    "C01": ("c01", 12000, 40, 400000, 420),
-    "C04": ("c04", 30000, 30, 800000, 300),
-    "C06": ("c06", 20000, 30, 600000, 300),
-    "C10": ("c10", 40000, 30, 1200000, 300),
-    "C14": ("c14", 30000, 30, 800000, 300),
+    "C01": ("c01", 48000, 40, 800000, 420),
+    "C04": ("c04", 150000, 40, 2000000, 300),
+    "C06": ("c06", 100000, 40, 1500000, 300),
+    "C10": ("c10", 160000, 40, 2500000, 300),
+    "C14": ("c14", 120000, 40, 2000000, 300),
 }
 
 RT_RULE = {
     "C01": "writer programs from G-PROGRAM (seeded; every 2nd case sweeps the section-start residue mod 1020 over all 255 four-aligned values, every 7th forces an integer bit width 0..64); non-trivial = finalized program with >=1 point cloud holding >=1 point; distinct = distinct program shapes (hash of item kinds, prototypes, point counts, blob lengths) among the non-trivial programs",
-    "C04": "metadata-heavy programs (every setter present/absent independently, strings from 11 XML character classes, wild floats, all image kinds); non-trivial = finalized program that opened; distinct = number of distinct (field, string class) and (field, present/absent) and image-kind cells actually exercised",
+    "C04": "metadata-heavy programs (every setter present/absent independently, strings from 12 XML character classes (incl. markup-heavy fragments with hundreds of unclosed tags), wild floats, all image kinds); non-trivial = finalized program that opened; distinct = number of distinct (field, string class) and (field, present/absent) and image-kind cells actually exercised",
     "C06": "blob-heavy programs (lengths from boundary table and random up to 5 pages; thorough: first blob length = case index mod 2101, i.e. every length 0..2100); non-trivial = blob read back and compared; distinct = distinct (blob length mod 1020) x distinct start positions mod 1020 observed, counted as distinct lengths residues + distinct position residues",
     "C10": "hostile-caller programs: rule-breaking/degenerate prototypes (16 classes), unfitting value vectors (arity, type, out-of-range at every width), abandoned writers, bad extension names; non-trivial = every program (each carries hostile elements or is a control); distinct = distinct program shapes incl. which calls were rejected",
     "C14": "bounds-focused programs (non-NaN; constant/increasing/decreasing/extremes-apart/sign-mixed sequences, interleaved rejected points); non-trivial = finalized program with >=1 point cloud holding >=1 point; distinct = distinct program shapes",
@@ -113,7 +113,7 @@ def roundtrip(prop, tier, seed):
     ev = res.stats.get("programs", 0)
     assumptions = [
         "the intent model (prototype rules, point_fits, expected limits/bounds) is written from the documented rules, not from the implementation",
-        "reads go through an in-memory device (M-DEV pass-through); File devices are covered by C16/C20",
+        "reads go through an in-memory device (M-DEV); one program in eight writes through a device that shortens every transfer; File devices are covered by C20",
         "checked profile = release optimisation + overflow checks + debug assertions",
     ]
     extra = {"points_compared": res.stats.get("rb_points", 0), "values_compared": res.stats.get("rb_values", 0),
@@ -131,12 +131,12 @@ GEN = {
                 rule="files written from generated programs and files from the independent encoder in exotic layouts (tame coordinates incl. +-0, attribute subsets, invalid-state patterns incl. out-of-set values injected by renaming an extension attribute in the XML, unit-quaternion poses) x ALL 64 option vectors; each simple point is compared with models::simple_point(raw point, descriptor, options); non-trivial = point cloud with >=1 point run under the 64 vectors; distinct = distinct attribute subsets observed",
                 distinct=lambda r: len(r.nums.get("attr_subset", ())), evaluations=lambda r: r.stats.get("option_vectors_run", 0),
                 assumptions=["only unit quaternions; derived spherical coordinates are taken from the un-posed Cartesian value", "points whose coordinates are non-finite are not judged under a pose (inf*0 differs between matrix and quaternion form)", "numeric values of normalised colour/intensity are left to C13; C05 checks presence/absence and un-normalised values exactly"]),
-    "C13": dict(workload="simple", extra=["--mode", "c13"], quick=(60000, 40), thorough=(1500000, 400), both=True,
-                rule="point clouds whose intensity/colour attributes take every data type (single/double open/bounded, integer, scaled integer of widths 0..64, degenerate) x 9 limit classes (absent, complete same type, complete mixed, partial via XML line removal, equal, reversed, extreme, non-finite, complete other type) x sorted value ladders x 4 settings of the two normalisation switches; non-trivial = (type class, limit class, switch) cell in which delivered values were checked; distinct = number of such distinct cells",
+    "C13": dict(workload="simple", extra=["--mode", "c13"], quick=(200000, 40), thorough=(3000000, 400), both=True,
+                rule="point clouds whose intensity/colour attributes take every data type (single/double open/bounded, integer, scaled integer of widths 0..64, degenerate) x 10 limit classes (absent, complete same type, complete mixed, partial via XML line removal, equal, reversed, extreme, non-finite, complete other type, tiny/subnormal width) x sorted value ladders x 4 settings of the two normalisation switches; non-trivial = (type class, limit class, switch) cell in which delivered values were checked; distinct = number of such distinct cells",
                 distinct=lambda r: len([k for k in r.cover if k.startswith("cell:")]), evaluations=lambda r: r.stats.get("clouds", 0),
                 assumptions=["expected value = clamp((v-min)/(max-min)) in f64 with halved operands, tolerance 2 ulp(f32) + 2e-7", "when limits are complete but of mixed/other type either candidate range is accepted; the invariants ([0,1], no NaN, monotone) are always required", "a reader that refuses unusable limits (reversed, non-finite) when the iterator is created is not a C13 matter"]),
     "C08": dict(workload="fuzz", extra=[], quick=(400000, 60), thorough=(12000000, 1200), both=True, abort_prop="C08",
-                rule="structure-aware mutants (36 operators: XML numbers/attributes/types/structure incl. NaN, inf, extreme integers, huge and empty prototypes, entity expansion, deep nesting, bad UTF-8; file-header, section-header, packet-header, stream-length and blob-header fields set to hostile values; payload bit flips; splices; ignored-packet chains; all pages re-sealed with the harness CRC; plus unsealed flips, truncations, extensions, tiny inputs; 25% stacked twice) of 14 bundled test files and 12 generated files, each fed to validate_crc, raw_xml, E57Reader::new, all getters, raw iterator, simple iterator (all 64 option vectors for the first two seeds, 4 otherwise), descriptor and hostile blobs; every call under catch_unwind + panic hook in a checked-arithmetic build; shard aborts are attributed to the journaled case; non-trivial = mutated input executed; distinct = distinct input byte strings (FNV-64)",
+                rule="structure-aware mutants (37 operators: XML numbers/attributes/types/structure incl. NaN, inf, extreme integers, huge and empty prototypes, entity expansion, deep nesting, bad UTF-8; file-header, section-header, packet-header, stream-length and blob-header fields set to hostile values; payload bit flips; splices; ignored-packet chains; all pages re-sealed with the harness CRC; plus unsealed flips, truncations, extensions, tiny inputs; 25% stacked twice) of 14 bundled test files and 12 generated files, each fed to validate_crc, raw_xml, E57Reader::new, all getters, raw iterator, simple iterator (all 64 option vectors for the first two seeds, 4 otherwise), descriptor and hostile blobs; every call under catch_unwind + panic hook in a checked-arithmetic build; shard aborts are attributed to the journaled case; non-trivial = mutated input executed; distinct = distinct input byte strings (FNV-64)",
                 distinct=lambda r: len(r.nums.get("input_identity", ())), evaluations=lambda r: r.stats.get("inputs", 0),
                 extra_cov=lambda r: {"inputs_opened": r.stats.get("inputs_opened", 0), "inputs_reached_packet_decoding": r.stats.get("inputs_reached_packet_decoding", 0), "simple_iterations_with_points": r.stats.get("inputs_reached_simple_points", 0),
                                      "calls_monitored": r.stats.get("calls_monitored", 0) + r.stats.get("iterator_steps_monitored", 0), "distinct_error_classes_seen": len(r.nums.get("error_class", ())), "panics": sum(v for k, v in r.sigcounts.items() if k.startswith("C08/panic")),
@@ -153,13 +153,13 @@ GEN = {
                 distinct=lambda r: len(r.nums.get("program_shape", ())), evaluations=lambda r: r.stats.get("images_built", 0),
                 extra_cov=lambda r: {"programs": r.stats.get("programs", 0), "images_rejected": r.stats.get("images_rejected", 0), "images_accepted_and_equal": r.stats.get("images_accepted_and_equal", 0), "write_kind_x_cut_class_cells": {k[4:]: v for k, v in r.cover.items() if k.startswith("cut:")}, "exhaustive": False, "exhaustive_part": "all prefixes of the device write sequence of every generated program"},
                 assumptions=["writes reach the device in issue order (no reordering is generated)", "the recorder is validated per program: replaying all recorded writes must reproduce the completed file"]),
-    "C16": dict(workload="fault", extra=[], quick=(1500, 60), thorough=(60000, 900), both=False,
+    "C16": dict(workload="fault", extra=[], quick=(5000, 60), thorough=(60000, 900), both=False,
                 rule="small writer programs and their read suites: (a) short-transfer schedules for reads and writes independently (1 byte, alternating, fixed k, random, random with ErrorKind::Interrupted; 4 per direction quick / 16 thorough) must give byte-identical files and identical read results; (b) ONE injected device error at EVERY device operation index (read/write/seek/flush; kinds Other, UnexpectedEof/WriteZero, write returning Ok(0)) of the writer program and of the reader suite: the public call in progress (identified by the M-DEV trace) must return Err, never panic or Ok; Ok from top-level finalize implies the device image equals the fault-free file; non-trivial = fault or schedule run; distinct = distinct program shapes",
                 distinct=lambda r: len(r.nums.get("program_shape", ())), evaluations=lambda r: r.stats.get("writer_fault_runs", 0) + r.stats.get("reader_fault_runs", 0) + r.stats.get("schedules_write", 0) + r.stats.get("schedules_read", 0),
                 extra_cov=lambda r: {"writer_fault_runs": r.stats.get("writer_fault_runs", 0), "reader_fault_runs": r.stats.get("reader_fault_runs", 0), "calls_observed_returning_err": r.stats.get("writer_calls_returned_err", 0) + r.stats.get("reader_calls_returned_err", 0), "faults_during_drop_exempt": r.stats.get("writer_fault_in_drop_exempt", 0),
                                      "fault_cells": {k: v for k, v in r.cover.items() if k.startswith(("writer-fault:", "reader-fault:"))}, "exhaustive": False, "exhaustive_part": "every device operation index of every generated program and read suite"},
                 assumptions=["errors swallowed in Drop have no return value and are exempt", "a read returning Ok(0) while data exists violates the Read contract and is not injected; write returning Ok(0) is", "faults do not transfer partial data (torn transfers are C15's and C17's domain)"]),
-    "C17": dict(workload="history", extra=[], quick=(12000, 60), thorough=(600000, 900), both=False,
+    "C17": dict(workload="history", extra=[], quick=(40000, 60), thorough=(600000, 900), both=False,
                 rule="files with 2-4 point clouds and 2-4 blobs (intact / one damaged data page / damaged section header / damaged blob header); random sequences of 5..40 operations {raw iterate k in {0,1,half,all+2} then drop, simple iterate k with 4 option vectors, blob, descriptors} on ONE reader over a device that in half the cases delivers short reads and in half the cases returns one transient error; every result is compared with the memoised result of the same operation on a fresh reader; non-trivial = sequence executed; distinct = distinct (sequence, damage class) identities",
                 distinct=lambda r: len(r.nums.get("sequence_identity", ())), evaluations=lambda r: r.stats.get("sequences", 0),
                 extra_cov=lambda r: {"operations": r.stats.get("operations", 0), "ops_failed": r.stats.get("ops_failed", 0), "ops_equal_after_earlier_failure": r.stats.get("ops_equal_after_earlier_failure", 0), "ops_hit_by_transient_device_error": r.stats.get("ops_with_transient_error", 0), "op_kind_pairs": {k[5:]: v for k, v in r.cover.items() if k.startswith("pair:")}},
